@@ -99,8 +99,6 @@ func parseShapes(ts *Trafficshape) error {
 			shape.MaxBandwidth = DefaultBitrate / 8
 		}
 
-		shape.WriteBucket = NewBucket(shape.MaxBandwidth, time.Second)
-
 		// Verify and process the throttles, filling in their ByteStart and ByteEnd.
 		for throttleIndex, throttle := range shape.Throttles {
 			if throttle == nil {
@@ -199,6 +197,12 @@ func parseShapes(ts *Trafficshape) error {
 
 		// Sort the actions according to their byte offset.
 		sort.SliceStable(shape.Actions, func(i, j int) bool { return shape.Actions[i].getByte() < shape.Actions[j].getByte() })
+	}
+
+	// Buckets run a drain goroutine each: create them only once the whole
+	// configuration is known to be valid.
+	for _, shape := range ts.Shapes {
+		shape.WriteBucket = NewBucket(shape.MaxBandwidth, time.Second)
 	}
 	return nil
 }
